@@ -384,6 +384,7 @@ Result<WorkResult, WorkError>
     {
         Ok(resolutions) =>
         {
+            info.blob.forget_replaced_file_states(&resolutions);
             if needs_rebuild(&resolutions)
             {
                 rebuild_node(
